@@ -35,7 +35,8 @@ META = {
 }
 
 
-def run(ctx):
+def run(ctx, shared=True):
+    """shared=False: C14's own rules only (for properties that borrow them; avoids mutual recursion with C11)."""
     repo = ctx.repo
     A = repo.cls("aspire.aspire:Aspire")
     sp = A.methods["sample_posterior"]
@@ -186,17 +187,22 @@ def run(ctx):
                    "fit(..., overwrite=True) replaces /flow but leaves /checkpoint in place: its particles were weighted under the replaced flow, and resume_from_file "
                    "then continues that population with the new flow as proposal", disc=f"overwrite|{i}")
     from . import c12
-    reuse(ctx, c12.run, ("C12.cad",), "C14cad", "cadence rule shared with C12: sample_posterior rewrites /flow and the configuration before sampling, so every run that has a "
-          "checkpoint callback must end by writing its own checkpoint -- otherwise the file pairs the new flow with the checkpoint of an earlier run")
-    reuse(ctx, c12.run, ("C12.blob",), "C14blob", "blob-writer rule shared with C12: sample_posterior has already replaced /flow when the sampler stores its checkpoint, so a payload that is "
-          "not written (or an old one that is kept) pairs the new flow with the particles of an earlier run")
+    if shared:
+        reuse(ctx, c12.run, ("C12.cad",), "C14cad", "cadence rule shared with C12: sample_posterior rewrites /flow and the configuration before sampling, so every run that has a "
+              "checkpoint callback must end by writing its own checkpoint -- otherwise the file pairs the new flow with the checkpoint of an earlier run")
+    if shared:
+        reuse(ctx, c12.run, ("C12.blob",), "C14blob", "blob-writer rule shared with C12: sample_posterior has already replaced /flow when the sampler stores its checkpoint, so a payload that is "
+              "not written (or an old one that is kept) pairs the new flow with the particles of an earlier run")
     from . import c13
-    reuse(ctx, c13.run, ("C13.flow", "C13.nomut"), "C14rt", "flow round-trip rules shared with C13: sample_posterior saves the flow again on every call, also the one a resumed instance loaded from the file, "
-          "so a flow that does not survive load-then-save (or a second save) unchanged leaves a proposal in the file that is not the one the stored particles were weighted under")
+    if shared:
+        reuse(ctx, c13.run, ("C13.flow", "C13.nomut"), "C14rt", "flow round-trip rules shared with C13: sample_posterior saves the flow again on every call, also the one a resumed instance loaded from the file, "
+              "so a flow that does not survive load-then-save (or a second save) unchanged leaves a proposal in the file that is not the one the stored particles were weighted under")
     from . import c11
-    reuse(ctx, c11.run, ("C11.prime",), "C14res", "resume-route rule shared with C11: the population a resumed instance continues from is the checkpoint read in the same pass as the flow it loaded, "
-          "and it is forwarded exactly when the caller gave none")
-    reuse(ctx, c19.run, ("C19.ac",), "C14ctx", "context rule shared with C19: checkpoint defaults left behind after the with-block make later calls write to the old file")
+    if shared:
+        reuse(ctx, c11.run, ("C11.prime",), "C14res", "resume-route rule shared with C11: the population a resumed instance continues from is the checkpoint read in the same pass as the flow it loaded, "
+              "and it is forwarded exactly when the caller gave none")
+    if shared:
+        reuse(ctx, c19.run, ("C19.ac",), "C14ctx", "context rule shared with C19: checkpoint defaults left behind after the with-block make later calls write to the old file")
     cd = A.methods["config_dict"]
     reads = any(isinstance(n, ast.Attribute) and n.attr == "_last_sampler_type" for n in ast.walk(cd.node))
     ctx.decide(reads, "C14.config", cd.ident, loc_of(cd), "config_dict reports the last requested sampler type", "config_dict does not report the sampler type", disc="report")
